@@ -11,6 +11,7 @@ CONSTANTS
   DropLastBitmap = FALSE
   KeepGroupByScratch = FALSE
   ClobberOnFlush = FALSE
+  BigByFold = TRUE
 INVARIANTS AnswersCorrect SchemaCorrect RoundTrip WritersAgreeLib
 PROPERTIES QueryObjectsStable ReadOnlyOps NoClobber
 CHECK_DEADLOCK FALSE
